@@ -657,7 +657,21 @@ func expectScript(s script) []string {
 				}
 				ms[i] = member{alive: alive[i], seqno: heads[i], rtt: rtt[i]}
 			}
-			best = ruleSelect(s.strategy, ms, best)
+			if nb := ruleSelect(s.strategy, ms, best); nb != best {
+				// the choice changes: the waiters learn the head the new best connection already has
+				best = nb
+				if q := heads[best]; q > 0 {
+					for i := range state {
+						if state[i] == 'w' && registered[i] && q >= target[i] {
+							if parked[i] {
+								reached[i] = true
+							} else {
+								state[i] = 'o'
+							}
+						}
+					}
+				}
+			}
 		case "c":
 			if i := atoi(f[1]); i < len(state) && state[i] == 'w' && !parked[i] {
 				state[i] = 'e'
@@ -1188,6 +1202,9 @@ func genWait(g *h.G, out func(op string, args ...string)) {
 	emit("first-working", "5/5", "0", "w:0:7:L", "u:1:7", "t:2:1.1", "u:1:8", "u:0:9")
 	emit("best-ping", "5/9", "0", "w:0:7:L", "w:1:6:L", "t:3:2.1", "u:1:10")
 	emit("best-ping", "0", "-1", "w:0:1:L")
+	// the best connection dies and the pool switches to one that already has the awaited head
+	emit("best-ping", "5/9", "0", "w:0:8:L", "t:2:1.1")
+	emit("first-working", "5/9/9", "0", "w:0:8:L", "w:1:10:L", "w:2:9:P", "t:6:1.1.1", "r:2", "u:1:10")
 	// a waiter held before its select while heads arrive: the newest head must be the one it finds
 	emit("best-ping", "5", "0", "w:0:8:P", "u:0:7", "u:0:8", "r:0")
 	emit("best-ping", "5", "0", "w:0:8:P", "u:0:8", "u:0:9", "u:0:10", "r:0")
